@@ -722,7 +722,9 @@ class FnAnalysis:
                 for ps, a in zip(arg_paths, args_n):
                     self.read(ps, a)
                 how = "whole" if name in MUT_WHOLE else "rmw" if name in MUT_RMW else "grow"
-                if name in ("reserve", "resize", "shrink_to_fit"):
+                if name == "resize" and args_n and const_value(strip(args_n[0])) == 0:
+                    how = "whole"       # resize(0) empties the container, like clear()
+                elif name in ("reserve", "resize", "shrink_to_fit"):
                     how = name
                 elif how != "whole":
                     self.read(obj_paths, e)
